@@ -62,7 +62,7 @@ class Env:
         return {"header/TLAB/alignment/Region/array size": "all inputs fully symbolic 64-bit (align_i32: 32-bit) under the stated preconditions; loop-free except try_mark's CAS loop (<= 2 iterations sequentially)",
                 "align_usize_up": "alignment 2^sh for every sh in 0..63 (forked), and alignment 0; value symbolic 64-bit (alignments that are not powers of two are outside: no caller uses one, and the division makes the queries intractable)",
                 "os page helpers": "page_size_bits in {12,14,16}",
-                "determine_array_size": "element size symbolic <= 4096 (quick: element sizes {0,1,2,4,8,12,16,24,32,64,4096})" if tier == "thorough" else "element size in {0,1,2,4,8,12,16,24,32,64,4096}, length symbolic 64-bit",
+                "determine_array_size": "element size in {0,1,2,4,8,12,16,24,32,64,4096}%s, length symbolic 64-bit" % (" + {3,5,6,7,10,20,40,48,56,128,256,1024,65536}" if tier == "thorough" else ""),
                 "table": tbl.bounds_text(tier)}
 
     # -- values
@@ -704,15 +704,14 @@ def array_harnesses(E, tier):
     tw = lambda I, O: [("size computation overflows (debug build panics) beyond the precondition", True)] if O["panic"] else [("padding added", O["ret"] & 7 == 0)]
     hs = []
     sizes = [0, 1, 2, 4, 8, 12, 16, 24, 32, 64, 4096]
+    if tier == "thorough":
+        # a symbolic element size makes the 64x64-bit overflow-checked product intractable: more concrete sizes instead
+        sizes += [3, 5, 6, 7, 10, 20, 40, 48, 56, 128, 256, 1024, 65536]
     for es in sizes:
         hs.append(H("arraysize/elem=%d" % es, "determine_array_size + mem::align_usize_up + Array::len", [("len", "usize")], lambda I: z3.BoolVal(True),
                     sym(es), nat(es), spec(es), tw,
                     lambda rng, es=es: [{"len": n} for n in (0, 1, 3, 7, (1 << 61) + 1, M64, rng.getrandbits(40))],
                     need=["padding added"] + (["size computation overflows (debug build panics) beyond the precondition"] if es else [])))
-    if tier == "thorough":
-        hs.append(H("arraysize/elem-symbolic", "determine_array_size", [("elem", "usize"), ("len", "usize")], lambda I: ule(I["elem"], 4096),
-                    sym(None), nat(None), spec(None), tw, lambda rng: [{"elem": 24, "len": 5}, {"elem": 3, "len": M64 // 3}],
-                    need=["padding added"]))
     return hs
 
 
